@@ -84,41 +84,64 @@ def pat_from_json(p):
     return dict(p, phys=[Fraction(v) for v in p["phys"]], default=Fraction(p["default"]))
 
 # ---------------------------------------------------------------------------------------------------------------
-def random_pattern(rng, shape):
-    """a pattern of the given virtual shape.  Returns None for 'leave this factor an ordinary dense torch tensor'."""
-    n = len(shape)
+def label_types(rng):
+    """node labels with their INDEX TYPE.  The library requires that all tensors indexed by the same node label are typed
+    alike there (Axis.unify warns 'index type mismatch' otherwise: SumAxes with different before/after, a ProductAxis
+    against a SumAxis), so the type is fixed per label:  ("atom", n) | ("sum", b, m, a)  (size b+m+a, the stored part is
+    an atom of size m; m = 1 is a one-hot) | ("prod", 2, 2)  (size 4).  Returns (sizes, types); the first two labels share
+    the size of their stored part (the 'core'), so that a diagonal can tie an axis of size m to one of size b+m+a."""
+    c = rng.choice([2, 2, 3, 3, 1])
+    def sum_of(c):
+        extra = rng.randint(1, 4 - c) if c < 4 else 0
+        b = rng.randint(0, extra); return ("sum", b, c, extra - b)
+    types = [("atom", c) if c > 1 or rng.random() < 0.5 else sum_of(1)]
+    r = rng.random()
+    types.append(sum_of(c) if r < 0.6 else (("atom", c) if r < 0.8 else ("atom", rng.choice([n for n in (2, 3, 4) if n != c]))))
+    if rng.random() < 0.45:
+        r = rng.random()
+        types.append(("prod", 2, 2) if r < 0.3 else (sum_of(rng.choice([1, 2, c])) if r < 0.65 else ("atom", rng.randint(1, 4))))
+    rng.shuffle(types)
+    return [t[1] if t[0] == "atom" else (4 if t[0] == "prod" else t[1] + t[2] + t[3]) for t in types], types
+
+def random_pattern(rng, ltypes):
+    """a pattern whose virtual axes have the given label types.  None = leave the factor an ordinary dense torch tensor."""
+    n = len(ltypes)
     if n == 0 or rng.random() < 0.12: return None
     psizes = []; axes = [None] * n; expanded = []; kinds = []
     def new_p(size):
         psizes.append(size); return len(psizes) - 1
+    def core(t): return t[1] if t[0] == "atom" else (t[2] if t[0] == "sum" else None)
+    def sparse(t, j): return ["p", j] if t[0] == "atom" else ["s", t[1], ["p", j], t[3]]
+    def full(t): return t[1] if t[0] == "atom" else (4 if t[0] == "prod" else t[1] + t[2] + t[3])
     todo = list(range(n)); rng.shuffle(todo)
-    # tie two (or three) virtual axes to ONE physical axis: a diagonal, embedded on the larger side when the sizes differ
-    if n >= 2 and rng.random() < 0.75:
-        grp = todo[:3] if (n >= 3 and rng.random() < 0.3) else todo[:2]
-        todo = [a for a in todo if a not in grp]
-        m = min(shape[a] for a in grp)
-        if m >= 2 and rng.random() < 0.15: m = rng.randint(1, m - 1)          # a shorter diagonal, embedded on every side
-        j = new_p(m)
-        for a in grp:
-            extra = shape[a] - m
-            if extra == 0: axes[a] = ["p", j]
-            else:
-                b = rng.randint(0, extra); axes[a] = ["s", b, ["p", j], extra - b]
-        kinds.append("diag%d%s" % (len(grp), "_embedded" if any(shape[a] != m for a in grp) else ""))
+    # a diagonal: two (or three) virtual axes share ONE physical axis; on a sum-typed label it is embedded (sizes differ)
+    by_core = {}
     for a in todo:
-        s = shape[a]; r = rng.random()
-        if s >= 2 and r < 0.22:                      # one-hot: only one index is not default
-            b = rng.randrange(s); axes[a] = ["s", b, ["u"], s - 1 - b]; kinds.append("onehot")
-        elif s >= 2 and r < 0.45:                    # a smaller physical axis embedded in the virtual one
-            m = rng.randint(1, s - 1); b = rng.randint(0, s - m); axes[a] = ["s", b, ["p", new_p(m)], s - m - b]; kinds.append("embedded")
-        elif s >= 2 and r < 0.62:                    # expanded: stride-0 storage
-            j = new_p(s); axes[a] = ["p", j]; expanded.append(j); kinds.append("expanded")
-        elif s == 4 and r < 0.8:                     # a product of two physical axes
+        if core(ltypes[a]) is not None: by_core.setdefault(core(ltypes[a]), []).append(a)
+    groups = [g for c, g in sorted(by_core.items()) if len(g) >= 2]
+    if groups and rng.random() < 0.8:
+        g = rng.choice(groups); grp = g[:3] if (len(g) >= 3 and rng.random() < 0.35) else g[:2]
+        j = new_p(core(ltypes[grp[0]]))
+        for a in grp: axes[a] = sparse(ltypes[a], j)
+        todo = [a for a in todo if a not in grp]
+        kinds.append("diag%d%s" % (len(grp), "_embedded" if any(ltypes[a][0] == "sum" for a in grp) else ""))
+    prods = [a for a in todo if ltypes[a][0] == "prod"]
+    if len(prods) >= 2 and rng.random() < 0.5:
+        j1, j2 = new_p(2), new_p(2)
+        for a in prods[:2]: axes[a] = ["m", [["p", j1], ["p", j2]]]
+        todo = [a for a in todo if a not in prods[:2]]; kinds.append("diag2_product")
+    for a in todo:
+        t = ltypes[a]; r = rng.random()
+        if t[0] == "prod" and r < 0.7:
             axes[a] = ["m", [["p", new_p(2)], ["p", new_p(2)]]]; kinds.append("product")
-        elif s == 1 and r < 0.5:
+        elif t[0] == "sum" and r < 0.6:
+            axes[a] = sparse(t, new_p(t[2])); kinds.append("onehot" if t[2] == 1 else "embedded")
+        elif full(t) >= 2 and r < 0.8:               # expanded: stride-0 storage along a dense axis
+            j = new_p(full(t)); axes[a] = ["p", j]; expanded.append(j); kinds.append("expanded")
+        elif full(t) == 1 and r < 0.5:
             axes[a] = ["u"]; kinds.append("unit")
         else:
-            axes[a] = ["p", new_p(s)]; kinds.append("dense_axis")
+            axes[a] = ["p", new_p(full(t))]; kinds.append("dense_axis")
     # values: finite (so that the sparsity alone decides which derivations exist), rarely -inf inside the storage
     cnt = math.prod(psizes)
     phys = [rng.choice(VALS) if rng.random() < 0.93 else Fraction(0) for _ in range(cnt)]
@@ -128,8 +151,8 @@ def random_pattern(rng, shape):
             idx = [(k // strides[j]) % psizes[j] for j in range(len(psizes))]
             k0 = sum((0 if j in expanded else idx[j]) * strides[j] for j in range(len(psizes)))
             phys[k] = phys[k0]
-    sparse = any(d[0] == "s" for d in axes) or len({d[1] for d in axes if d[0] == "p"}) < sum(1 for d in axes if d[0] == "p")
-    default = Fraction(0) if (not sparse or rng.random() < 0.85) else Fraction(1, 4)     # -inf; rarely a finite default (-2)
+    sparse_pat = any(k.startswith(("diag", "embedded", "onehot")) for k in kinds)
+    default = Fraction(0) if (not sparse_pat or rng.random() < 0.85) else Fraction(1, 4)     # -inf; rarely a finite default (-2)
     return dict(psizes=psizes, axes=axes, phys=phys, default=default, expanded=expanded,
                 route=rng.choice(["ctor", "api"]), kind="+".join(sorted(kinds)))
 
@@ -137,11 +160,7 @@ def pattern_spec(rng, recursive=False):
     """(spec, pats): nonterminals of arity 2-3 (the start symbol too, so every start assignment is a query), 2-3 node
     labels with different domain sizes, every rule with 2-3 external nodes and 0-2 internal ones; each internal node is
     attached to a terminal edge that also visits an external node; terminal weights come from random_pattern."""
-    n_nl = rng.choice([2, 2, 3])
-    nlabels = rng.sample([2, 3, 4], n_nl)
-    r = rng.random()
-    if r < 0.15: nlabels[rng.randrange(n_nl)] = 1
-    elif r < 0.35: nlabels[1] = nlabels[0]             # two different labels with domains of the same size
+    nlabels, ltypes = label_types(rng); n_nl = len(nlabels)
     n_nt = rng.choice([1, 2, 2, 3])
     elabels = [dict(term=False, type=[rng.randrange(n_nl) for _ in range(rng.choice([2, 2, 3]))]) for _ in range(n_nt)]
     rules = []; feats = set(["patterned"])
@@ -199,7 +218,7 @@ def pattern_spec(rng, recursive=False):
     for el, e in enumerate(elabels):
         if not e["term"]: continue
         shape = [nlabels[l] for l in e["type"]]
-        p = random_pattern(rng, shape)
+        p = random_pattern(rng, [ltypes[l] for l in e["type"]])
         if p is None:
             weights[el] = gen.nested(shape, lambda: rng.choice(VALS) if rng.random() < 0.9 else Fraction(0))
             feats.add("pat:plain_tensor")
@@ -209,6 +228,7 @@ def pattern_spec(rng, recursive=False):
             for k in p["kind"].split("+"): feats.add("pat:" + k)
             if p["default"] != 0: feats.add("pat:finite_default")
     if len(set(nlabels)) == len(nlabels): feats.add("domains_all_different_sizes")
+    for t in ltypes: feats.add("label_type:" + t[0])
     spec = dict(nlabels=nlabels, elabels=elabels, start=0, rules=rules, weights=weights, features=sorted(feats), recursive=recursive)
     return spec, pats
 
